@@ -131,7 +131,7 @@ def abstract(w, sess, frames, t0, hs_len, res):
                         if off == UNKNOWN:
                             pk = 0
                         # only a slice that entered the reassembly buffer tells which packet is being reassembled
-                        if pk and u["in"][2] != state0["in"][2] and u["in"][2] > 0:
+                        if pk and u["in"][:3] != state0["in"][:3] and u["in"][2] > 0:
                             lastpk = pk
                         msg.update(useq=c["useq"], ufrag=c["ufrag"], last=c["last"], pkt=pk, off=off if pk else 0,
                                    len=len(body))
